@@ -277,6 +277,15 @@ def container_checks(chk, ctx, decs):
         it, outs = codec.run(prog, d)
         B = codec.symbolic_args(d)[0]
         loops = [l for l in it.loops if l['func'] is d]
+        if not loops:
+            # the element loop may live in a helper the reader runs (a
+            # cursor / iterator object): its activation under this reader
+            loops = [l for l in it.loops
+                     if len(l.get('chain', ())) >= 2 and
+                     l['chain'][0] == d.short and
+                     not any(c in (x.short for x in decs.values()
+                                   if isinstance(x, FuncInfo))
+                             for c in l['chain'][1:])]
         rets = [o for o in outs if o.kind == 'return']
         if len(loops) != 1 or not rets:
             chk.undecide('C03.C', kind + ' reader', 'expected one loop and '
